@@ -35,6 +35,22 @@ def _sync_alt_harness():
         t = open(f).read().replace('"/repo/', '"%s/' % REPO).replace("/verif/.build/target", TARGET)
         open(f, "w").write(t)
 
+# Coverage measurement (tools_coverage.sh, never used by a registered check): VERIF_COV=<dir> builds harness and pna
+# with the nightly toolchain and -C instrument-coverage into <dir>/target*, and every process started from a check
+# writes its counters to <dir>/prof (merge pool of 8 files per binary).  It answers "how far do the correspondence
+# generators reach into the Rust files the model mirrors" with line numbers instead of a guess.
+COV = os.environ.get("VERIF_COV")
+COV_RUSTFLAGS = "--cfg pna_verif"
+if COV:
+    COV = os.path.abspath(COV)
+    TARGET = os.path.join(COV, "target")
+    PNA_TARGET = os.path.join(COV, "target-pna")
+    COV_RUSTFLAGS = "--cfg pna_verif -C instrument-coverage"
+    os.makedirs(os.path.join(COV, "prof"), exist_ok=True)
+    os.environ["LLVM_PROFILE_FILE"] = os.path.join(COV, "prof", "%8m.profraw")
+    os.environ["RUSTUP_TOOLCHAIN"] = "nightly"
+    os.environ["RUSTFLAGS"] = COV_RUSTFLAGS
+
 ENV = dict(os.environ, CARGO_NET_OFFLINE="true", CARGO_TERM_COLOR="never")
 
 FORBIDDEN = re.compile(
@@ -253,7 +269,7 @@ def build_harness(bins=None, timeout=3000):
 def build_pna(timeout=3000):
     """the real `pna` binary from /repo's working tree (same target dir, hooks cfg on)."""
     with Lock("cargo" if REPO == "/repo" else "cargo_alt"):
-        env = dict(ENV, RUSTFLAGS="--cfg pna_verif")
+        env = dict(ENV, RUSTFLAGS=COV_RUSTFLAGS)
         rc, out = sh(["cargo", "build", "--offline", "--quiet", "--manifest-path", os.path.join(REPO, "cli", "Cargo.toml"),
                       "--bin", "pna", "--target-dir", PNA_TARGET], cwd=REPO, timeout=timeout, env=env)
     return rc == 0, os.path.join(PNA_TARGET, "debug", "pna"), out
